@@ -2140,7 +2140,7 @@ RULES = {
     "C16": [rule_py_eof, rule_py_refill_scope, rule_py_no_swallowed_eof],
     "C17": [rule_py_stream_blocks, rule_py_no_alias, rule_py_capacity],
     "C04": [rule_py_headers, rule_py_write_order, rule_ndjson_key_order],
-    "C01": [rule_py_dtype_constants_agree, rule_py_wire_table, rule_py_stream_blocks, rule_py_write_order, rule_py_no_alias, rule_py_varint_constants, rule_py_length_prefix_measures_payload, rule_py_trivially_serializable_set, rule_py_fixed_containers_have_no_length],
+    "C01": [rule_py_row_major, rule_py_dtype_constants_agree, rule_py_wire_table, rule_py_stream_blocks, rule_py_write_order, rule_py_no_alias, rule_py_varint_constants, rule_py_length_prefix_measures_payload, rule_py_trivially_serializable_set, rule_py_fixed_containers_have_no_length],
 }
 
 
